@@ -138,6 +138,7 @@ def main(pid, tier):
         known = load_known(pid)
         discharged, inconclusive, violations, known_hits, twins_ok = [], [], [], [], 0
         replays_done = 0
+        nf_only = []
 
         def do_replay(item):
             ob, res = item
@@ -168,7 +169,15 @@ def main(pid, tier):
                 continue
             if st == "unsat":
                 discharged.append((ob, res))
+            elif st != "sat" and ob.get("nf_closed"):
+                res["status"] = "unsat"
+                res["by"] = "normal-form"
+                nf_only.append(ob["name"])
+                discharged.append((ob, res))
             elif st == "sat":
+                if ob.get("nf_closed"):
+                    harness_errors.append(f"{ob['name']}: solver says sat but the polynomial normal form closes the goal "
+                                          "(normaliser and solver disagree)")
                 rep = rep_of[ob["name"]]
                 replays_done += 1
                 if rep.get("reproduced"):
@@ -208,7 +217,7 @@ def main(pid, tier):
             rc = EXIT_HARNESS
 
         solver_time = round(sum(r["time"] for _, r in results), 2)
-        n_nontrivial = sum(1 for ob, _ in discharged if not ob.get("trivial"))
+        n_nontrivial = sum(1 for ob, r in discharged if not ob.get("trivial") and r.get("by") != "normal-form")
         samples = []
         for ob, res in (discharged[:3] + [x[:2] for x in known_hits[:2]] + inconclusive[:2]):
             samples.append({"obligation": ob["name"], "desc": ob.get("desc", ""), "status": res["status"],
@@ -226,7 +235,9 @@ def main(pid, tier):
                 "samples": samples,
                 "obligations": sum(1 for ob, _ in results if ob["expect"] == "unsat"),
                 "discharged": len(discharged),
-                "discharged_by_normalisation": sum(1 for ob, _ in discharged if ob.get("trivial")),
+                "discharged_syntactically": sum(1 for ob, _ in discharged if ob.get("trivial")),
+                "discharged_by_solver_and_normal_form": sum(1 for ob, r in discharged if ob.get("nf_closed") and r.get("by") != "normal-form"),
+                "discharged_by_normal_form_only_solver_inconclusive": nf_only,
                 "inconclusive": [{"obligation": ob["name"], "status": res["status"], "solver_s": res["time"],
                                   "reason": res.get("reason", "")[:200]} for ob, res in inconclusive],
                 "vacuity_twins_sat": twins_ok,
